@@ -143,6 +143,10 @@ def bytes_len(I, b):
     lo, hi = b.fixed_len()
     if lo == hi:
         return lo
+    if len(b.parts) == 1 and b.parts[0][0] == "pay" and not b.parts[0][1].escapes and is_sym(b.parts[0][1].len):
+        cs = b.parts[0][1].charset
+        if b.parts[0][1].kind == "bytes" or all(c < 128 for c in cs):
+            return b.parts[0][1].len  # canonical length symbol of the payload
     s = Sym("len", (), "usize", lo, hi, attrs={"of": b})
     # stable identity: cache on the object
     key = tuple(id(p) for p in b.parts)
@@ -746,8 +750,38 @@ def _index(I, f, a):
         I.run.panics.append(("index_oob", I.where()))
         raise PathEnd("panic", "index out of bounds")
     if isinstance(v, Bytes):
-        return Ref(Box_(byte_at(I, v, idx), "byte"), ())
+        return Ref(ByteSlot(v, idx, I), ())
     raise I.unanalysable("index on %r" % type(v).__name__)
+
+
+class ByteSlot(Box_):
+    """one byte of a (possibly symbolic) byte string; a store replaces that byte"""
+    __slots__ = ("b", "idx", "I")
+
+    def __init__(self, b, idx, I):
+        self.b, self.idx, self.I = b, idx, I
+        self.name = "byte"
+
+    @property
+    def v(self):
+        return byte_at(self.I, self.b, self.idx)
+
+    @v.setter
+    def v(self, val):
+        I = self.I
+        byte_at(I, self.b, self.idx)  # bounds check
+        import models2
+        cs = set(models2.charset_of(I, self.b))
+        if isinstance(val, int):
+            cs.add(val)
+        else:
+            cs |= char_set(I, val)
+        ln = bytes_len(I, self.b)
+        n = getattr(self.b, "nset", 0) + 1
+        self.b.nset = n
+        kind = "str" if self.b.is_str else "bytes"
+        src = getattr(self.b, "src_id", self.b.id)
+        self.b.parts = [("pay", Payload(kind, cs, ln, origin="byteset_of:%d:%d" % (src, n)))]
 
 
 def pick_elem(I, el, idx):
@@ -892,7 +926,7 @@ def bytes_slice(I, b, lo, hi):
                 cs |= set(range(256))
         ln = I.binop("Sub", hi, lo, "usize")
         tag = "prefix" if (not is_sym(lo) and lo == 0) else "slice"
-        return Bytes([("pay", Payload("bytes", cs, ln, origin=tag + "_of:%d" % b.id))], b.is_str)
+        return Bytes([("pay", Payload("bytes", cs, ln, origin=tag + "_of:%d" % b.src_id))], b.is_str)
     out = []
     pos = 0
     for p in b.parts:
